@@ -8,6 +8,21 @@ HOOK_COMMITS = subprocess.run(
 
 # property -> (level, technique, level text, level note, design ref)
 CLAIMED = {
+ "C03": ("exploration",
+         "deterministic request-granularity simulation of 1-2 real Compactors (own catalog clients => stale candidate lists) with request faults, process crashes (incl. the lease-renewal task) and clock jumps past the lease TTL; offline monitor over EVERY catalog version: row-id reachability, exactly-once at quiescence, level arithmetic",
+         "Held on every scenario explored: datasets built through the real ingester (unique row ids), 1-2 compactors x 1-3 cycles interleaved at object-store-request (object-store backend) or catalog-call (in-memory backend) granularity, 0-2 injected faults before/after effect, crash of a compactor at a scheduled step with a fresh instance taking over, clock jumps of up to 900 s; every catalog version must reach every original row, the final state must hold each row once, merged chunk level = max(replaced)+1, every listed chunk readable.",
+         "Rows inside the retention window; chunk objects write-once; InMemory conditional PUT trusted; interleavings finer than a request are not explored.",
+         "DESIGN.md section 3 C03"),
+ "C09": ("exploration",
+         "deterministic simulation of a real Compactor sharing a ChunkPinRegistry with real QueryNodes parked at their chunk reads, scheduler-controlled shared clock, compactor restart through run(); offline monitor over recorded DELETE requests (path, instant, pin state at that instant), catalog history and retention removals",
+         "Held on every scenario explored: old / fresh / straddling / margin chunks, retention 1 / 90 / 36500 days, grace 0 / 1 / 300 s, 2-4 cycles, 0-2 query actors whose pins last as long as the scheduler likes, clock jumps across the grace period, restart via run() with persisted deletions. Every data-file DELETE judged: not in the current catalog, unreferenced >= grace, not pinned at that instant, once in the catalog; every retention removal judged against max_timestamp <= now - retention - skew; persisted deletions carried out by the restarted compactor within one cycle after grace (bounded progress, only in scenarios without pins).",
+         "One process (shared pin registry) and one clock; skew margin read from BoundedClock::default(); the 'eventually deleted' part is restated as bounded progress.",
+         "DESIGN.md section 3 C09"),
+ "C20": ("exploration",
+         "repeated compaction cycles of the real Compactor on random catalogs/configurations, observed through a recording MetadataClient decorator and the catalog versions; bounded-progress monitor for the fixed point",
+         "Held on every (catalog, configuration) explored: 3-24 chunks over 1-3 hour buckets, optionally pre-levelled under another configuration and topped up with new L0 chunks; thresholds 2-4, level targets 2-12 KB (so level-N merges happen), level limit 2-4; candidate groups of each call disjoint, no chunk in two merges of a cycle, merges never mix levels, a path's level never decreases across catalog versions, catalog level = max(source)+1, chunk count never grows, fixed point within initial-count+2 cycles.",
+         "'After finitely many cycles' is restated as the bound initial-chunk-count + 2 (each effective cycle removes at least one chunk); single compactor, no faults (C03 covers those).",
+         "DESIGN.md section 3 C20"),
  "C01": ("fault_enumeration",
          "deterministic simulation of the real ingester on a gated object store with feature-gated pause hooks; crash images (store fork + WAL directory + acknowledged ids) taken at every non-read scheduling step and booted in a fresh simulator; request-fault plan (fail before / after effect); thorough tier enumerates the fault position over the request indices of each execution",
          "Held on every crash image explored: 1-3 concurrent writers, schema changes, threshold / timer / shutdown flushes, both catalog backends, 0-2 injected request faults (thorough: every ~n/24-th request index x both modes per execution), crash points at every request and pause hook, crash-restart-crash (recovery itself run gated and imaged, depth <= 2) and torn WAL tails made with the real encoder. Oracle per image: ensure_wal succeeds, and after the shutdown flush every acknowledged row id is in a chunk a fresh catalog client lists (duplicates allowed); catalog row counts match the chunks.",
